@@ -3,6 +3,8 @@ package main
 // Solver racing: each query is sent to z3-new (5.1.0), z3 (4.8.12) and cvc5 (1.0.x) concurrently.
 
 import (
+	"crypto/sha256"
+	"encoding/hex"
 	"bytes"
 	"context"
 	"fmt"
@@ -39,7 +41,35 @@ var solvers = []solverSpec{
 var solverSem = make(chan struct{}, 16)
 
 // runQuery races the solvers on one query. all=true waits for every solver (thorough: disagreement check).
+var cacheDir = ""
+
+func cacheKey(query string, only []string) string {
+	h := sha256.Sum256([]byte(strings.Join(only, ",") + "\x00" + query))
+	return hex.EncodeToString(h[:16])
+}
+
+// runQuery with a verdict cache keyed by the exact query text: an identical query has an identical answer, so a
+// cached unsat/sat is as good as a fresh one (the VC is always regenerated from the current tree).
 func runQuery(dir, name, query string, timeoutMs int, all bool, only []string) solverResult {
+	if cacheDir != "" && !all {
+		k := filepath.Join(cacheDir, cacheKey(query, only))
+		if data, err := os.ReadFile(k); err == nil {
+			parts := strings.SplitN(string(data), " ", 3)
+			if len(parts) >= 2 && (parts[0] == "unsat" || parts[0] == "sat") {
+				return solverResult{Verdict: parts[0], Solver: parts[1] + "(cached)", All: map[string]string{parts[1]: parts[0]}, Output: parts[0] + "\n"}
+			}
+		}
+		r := runQueryUncached(dir, name, query, timeoutMs, all, only)
+		if r.Verdict == "unsat" || r.Verdict == "sat" {
+			os.MkdirAll(cacheDir, 0o755)
+			os.WriteFile(k, []byte(r.Verdict+" "+r.Solver+" "), 0o644)
+		}
+		return r
+	}
+	return runQueryUncached(dir, name, query, timeoutMs, all, only)
+}
+
+func runQueryUncached(dir, name, query string, timeoutMs int, all bool, only []string) solverResult {
 	type one struct {
 		solver, verdict, out string
 		ms                   int64
